@@ -322,7 +322,7 @@ def gen_ser_call(rng, o, cur, room):
     al = cur % 8 == 0
     for _ in range(20):
         m = rng.choice(["u", "u", "s", "s", "f", "bit", "bytes", "bits", "arr", "skip", "pad", "uneg"])
-        k = rng.choice(["ow", "or"]) if al else "or"
+        k = rng.choice(["ow", "or"]) if (al and m not in ("bit", "skip", "pad")) else "or"  # add_unaligned_bit is the only single-bit method
         c = {"o": o, "m": m, "k": k, "n": 0, "std": 0}
         if m in ("u", "s"):
             n = rng.choice([rng.randint(1 if m == "u" else 2, 64), rng.choice([8, 16, 32, 64]), rng.choice([1, 2, 3, 7, 9, 15, 17, 31, 33, 63, 64])])
@@ -453,7 +453,7 @@ def gen_des_calls(rng, ncalls, datalen):
         ob = objs[oi]
         al = ob["cur"] % 8 == 0
         m = rng.choice(["u", "u", "s", "s", "f", "bit", "bytes", "bits", "arr", "skip", "pad", "fork", "neg"])
-        k = rng.choice(["ow", "or"]) if al else "or"
+        k = rng.choice(["ow", "or"]) if (al and m not in ("bit", "skip", "pad")) else "or"
         c = {"o": oi + 1, "m": m, "k": k, "n": 0, "std": 0}
         if m in ("u", "s"):
             n = rng.choice([rng.randint(1 if m == "u" else 2, 64), rng.choice([8, 16, 32, 64]), rng.choice([2, 3, 7, 9, 15, 17, 31, 33, 63, 64])])
